@@ -73,9 +73,13 @@ def event_seqs(tier):
     if tier == 'quick':
         # the length-3 sequences that start by freezing
         out += [('freeze',) + s for s in itertools.product(EVENTS[1:], repeat=2)]
+    # the two line-by-line consumers inside exactly that re-shape the lines (`every` / `any line`; `filter`): alone, after freezing, before another access
+    for v in VIEW_EVENTS:
+        out += [(v,), ('freeze', v), (v, 'as_str'), ('lines1', v), (v, 'lines')]
     return out
 
 
+VIEW_EVENTS = ('lm-lines', 'filter-lines')
 _T = {}
 
 
@@ -247,6 +251,12 @@ def observe(src, ev):
             for l in it:
                 got.append(l)
         return ('lines', got)
+    if ev in VIEW_EVENTS:
+        from exactly_lib.impls.types.line_matcher import model_construction as mc_
+        with c.as_lines as it:
+            if ev == 'lm-lines':
+                return ('lm-lines', [(n, l) for n, l in mc_.model_iter_from_file_line_iter(it)])
+            return ('filter-lines', [(orig, (m[0], m[1])) for orig, m in mc_.original_and_model_iter_from_file_line_iter(it)])
     if ev == 'as_file':
         p = c.as_file
         with open(p, newline='', encoding='utf-8') as f:
@@ -272,6 +282,11 @@ def check_obs(ob, T, Tlines):
     elif k == 'lines':
         if v != Tlines:
             return 'gives lines %r' % (v[:8],)
+    elif k in VIEW_EVENTS:
+        body = lambda l: l[:-1] if l.endswith('\n') else l
+        want = [(i, body(l)) for i, l in enumerate(Tlines, 1)] if k == 'lm-lines' else [(l, (i, body(l))) for i, l in enumerate(Tlines, 1)]
+        if v != want:
+            return 'as seen by %s: %r, the text has the lines %r' % ('every / any line' if k == 'lm-lines' else 'filter', v[:6], Tlines[:6])
     elif k == 'first':
         exp = Tlines[0] if Tlines else None
         if v != exp:
